@@ -261,6 +261,20 @@ def execute(trace):
         for cname in trace.get('containers', []):
             run_container(cname, trace, T, data, enc, model, fs, rp, compare, Rtc, res)
 
+    # independent expectation: the generated text is well-formed, so it decodes, and to exactly as
+    # many graphs as were written (the reference above is the same code and would agree with itself)
+    st = trace['style']
+    if not st.get('trailing') and not st.get('leading', '').startswith('#'):
+        if Rexc is not None:
+            res.violate('count', 'well-formed-text-rejected', text=T, error=canon_result(None, Rexc))
+        elif len(R) != len(trace['graphs']):
+            res.violate('count', 'wrong-number-of-graphs', text=T, expected=len(trace['graphs']), got=len(R))
+        else:
+            for i, (g, spec) in enumerate(zip(R, trace['graphs'])):
+                if g.top != spec['tree'][0]:
+                    res.violate('count', 'wrong-top', index=i, text=T, expected=spec['tree'][0], got=g.top)
+                    break
+
     # oracle 3: metadata stays with the graph that follows it
     if Rexc is None and len(R) == len(trace['graphs']) and not trace['style'].get('trailing') \
             and not trace['style'].get('leading', '').startswith('#'):
